@@ -32,6 +32,9 @@ WRITE_MODES = ("w", "a", "x", "+")
 # shutil.move is deliberately absent: across filesystems it falls back to a
 # copy that opens the destination for writing in place
 REPLACERS = {"os.replace", "os.rename"}
+# a hard link onto the entry name is atomic too (the entry is complete or absent); that it cannot
+# displace an existing entry is C14's business (C14-OVERWRITE), not a crash-safety matter
+ATOMIC_PUBLISH = REPLACERS | {"os.link"}
 TEMPFILE_CTORS = {"tempfile.NamedTemporaryFile", "NamedTemporaryFile", "tempfile.mkstemp",
                   "mkstemp", "tempfile.TemporaryFile"}
 
@@ -270,10 +273,10 @@ def rule_atomic(ctx):
             for n, c2 in fl.calls():
                 d = dotted(c2.func)
                 src = dst = None
-                if d in REPLACERS and len(c2.args) >= 2:
+                if d in ATOMIC_PUBLISH and len(c2.args) >= 2:
                     src, dst = c2.args[0], c2.args[1]
-                elif isinstance(c2.func, ast.Attribute) and c2.func.attr in ("replace", "rename") \
-                        and len(c2.args) == 1 and d not in REPLACERS:
+                elif isinstance(c2.func, ast.Attribute) and c2.func.attr in ("replace", "rename", "link_to", "hardlink_to") \
+                        and len(c2.args) == 1 and d not in ATOMIC_PUBLISH:
                     src, dst = c2.func.value, c2.args[0]
                 if src is None:
                     continue
